@@ -18,7 +18,7 @@
    execution on thread 2), DEREG (remove_callback's lock acquisition: unlinks / same thread /
    must wait), the store of callbackCompleted_ by thread 2 and the blocking wait for it.
 
-   Parameter [fx]: false = the code as it is in the tree; true = the proposed repair
+   The model parameter [fx]: false = the code as it is in the tree; true = the proposed repair
    (a start_done bit: a try_complete that wins on another thread while start() is still
    running waits for it; completion on the starting thread is signalled through the stack flag).
 
